@@ -58,7 +58,8 @@ def gen_attr_case(rng, i):
         width = len(expos[0])
         s_names = list(range(width))
     return {"id": i, "kind": "attrs", "names": given, "expos": expos, "cols": cols, "shape": list(shape), "dtype": s["dtype"],
-            "rc": bool(rng.integers(2)), "rn": bool(rng.integers(2)), "mal": mal, "col_dtypes": col_dtypes, "allocation": alloc}
+            "rc": bool(rng.integers(2)), "rn": bool(rng.integers(2)), "mal": mal, "col_dtypes": col_dtypes, "allocation": alloc,
+            "global": ({"retain_coefficients": bool(rng.integers(2)), "retain_names": bool(rng.integers(2))} if rng.random() < .4 else None)}
 
 
 def attr_driver(c):
@@ -80,7 +81,10 @@ def check_attrs(ctx, c, model):
     names = None if c["names"] is None else tuple(f"q{n}" for n in c["names"])
     ctx.evaluations += 1
     ctx.count(f"attrs.malformed={c['mal']}")
+    # explicit flags win over the global options in force (seeded change C03-11: `flag or option`)
+    glob = c.get("global") or {}
     try:
+      with numpoly.global_options(**glob):
         p = numpoly.polynomial_from_attributes(numpy.array(c["expos"], dtype=int).reshape(len(c["expos"]), -1), cols, names,
                                                retain_coefficients=c["rc"], retain_names=c["rn"],
                                                **({"allocation": c["allocation"]} if c.get("allocation") is not None else {}))
@@ -260,6 +264,35 @@ def run_byteorder(ctx):
                 ctx.fail(case, f"{label} with dtype {dt}: coefficient dtype {p.dtype}", ["byteorder", "dtype"])
 
 
+def run_cast_zero(ctx):
+    """a requested dtype can turn a coefficient into zero (0.4 -> int): which terms are all zero is decided in the
+    requested type, so such a term is dropped exactly when retain_coefficients is off (D53)"""
+    q0 = numpoly.variable()
+    routes = {"polynomial_from_attributes": lambda rc: numpoly.polynomial_from_attributes([[0], [1], [2]], [1, 0.4, 2.5], dtype=int, retain_coefficients=rc),
+              "polynomial(poly, dtype=int)": lambda rc: (lambda: numpoly.polynomial(0.4 * q0 + 1 + 2.5 * q0 ** 2, dtype=int))() if not rc else None,
+              "from_attributes(arrays)": lambda rc: numpoly.polynomial_from_attributes([[0], [1]], [numpy.array([1.0, 2.0]), numpy.array([0.25, -0.5])], dtype="int8", retain_coefficients=rc)}
+    for label, make in routes.items():
+        for rc in (False, True):
+            case = {"kind": "cast-zero", "route": label, "retain_coefficients": rc}
+            ctx.evaluations += 1
+            ctx.count("cast-zero")
+            try:
+                p = make(rc)
+            except Exception as err:  # noqa: BLE001
+                ctx.fail(case, f"{label} raised {type(err).__name__}: {str(err)[:100]}", ["cast-zero", "raises"])
+                continue
+            if p is None:
+                continue
+            zero_rows = [e for e, c in zip(p.exponents.tolist(), p.coefficients) if any(e) and not numpy.any(c)]
+            if wf_problems(p):
+                ctx.fail(case, f"{label}: {wf_problems(p)}", ["cast-zero", "wf"])
+            elif not rc and zero_rows:
+                ctx.fail(case, f"{label} with retain_coefficients off keeps the all-zero term(s) {zero_rows} (zero after the cast to the requested dtype)",
+                         ["cast-zero", "cleaning"])
+            elif rc and not zero_rows:
+                ctx.fail(case, f"{label} with retain_coefficients on dropped the term that the cast turned into zero", ["cast-zero", "cleaning"])
+
+
 def run_allocations(ctx):
     """every public constructor that takes `allocation`, for every allocation from the number of terms to three times it"""
     makers = [("variable(3)", 3, lambda a: numpoly.variable(3, allocation=a)),
@@ -303,6 +336,9 @@ def run_catalogue(ctx):
             try:
                 res = e.call(*catalogue.build(spec))
             except Exception as err:  # noqa: BLE001
+                if isinstance(err, e.raises_ok):
+                    ctx.count("entry-rejects-arguments")       # a documented rejection (e.g. a name outside varname_filter)
+                    continue
                 ctx.fail(case, f"{e.name} raised {type(err).__name__}: {str(err)[:150]}", [f"entry:{e.name}", f"raises:{err_kind(err)}"])
                 continue
             ctx.evaluations += 1
@@ -343,6 +379,7 @@ def run(ctx):
     run_allocations(ctx)
     run_odd_keys(ctx)
     run_byteorder(ctx)
+    run_cast_zero(ctx)
 
 
 def replay(ctx, case):
@@ -353,6 +390,10 @@ def replay(ctx, case):
     if case["kind"] == "odd-keys":
         run_odd_keys(ctx)
         hits = [f for f in ctx.failures[n:] if f["case"].get("exponent") == case["exponent"]]
+        return hits[0]["what"] if hits else None
+    if case["kind"] == "cast-zero":
+        run_cast_zero(ctx)
+        hits = [f for f in ctx.failures[n:] if f["case"].get("route") == case["route"] and f["case"].get("retain_coefficients") == case["retain_coefficients"]]
         return hits[0]["what"] if hits else None
     if case["kind"] == "byteorder":
         run_byteorder(ctx)
